@@ -1,11 +1,11 @@
 //@ include prelude/header.rs
-//@ unit U12 paint.rs superimpose_style_sections: syntax highlighting only replaces the foreground (C15), characters are kept (C01)
+//@ unit U12 paint.rs superimpose_style_sections: explode, superimpose, coalesce whole - syntax highlighting only replaces the foreground (C15), every character is kept in its place with the styles of its own position (C01)
 verus! {
 //@ include prelude/base.rs
 //@ include prelude/std_assumed.rs
 //@ include prelude/ansi_term.rs
 //@ include prelude/style.rs
-//@ broadcast vax::vax_group axiom_ascii_suffix_boundary axiom_ascii_suffix_one_byte lemma_flat_push axiom_char_to_string
+//@ broadcast vax::vax_group axiom_ascii_suffix_boundary axiom_ascii_suffix_one_byte lemma_flat_push axiom_char_to_string lemma_subrange_full
 
 // Mirror of syntect::highlighting::{Style, Color} (plain data of the dependency; trusted copy).
 #[derive(Clone, Copy, PartialEq, Eq, Structural)]
@@ -90,6 +90,38 @@ pub axiom fn axiom_style_pair_eq()
 //@loop 1|     /* @C01,C15:coalesce.the.finished.runs.and.the.open.run.spell.the.characters.seen.so.far.each.in.the.style.of.its.position */ flat(coalesced@) + chars_with(superimposed_style_spec(current_style_pair.0, current_style_pair.1, true_color, null_syntect_style), current_string@) =~= superimposed_chars(secs, it.index@ + 1, true_color, null_syntect_style),
 //@loop 1|     forall|p: (SyntectStyle, Style)| make_superimposed_style.requires((p,)), forall|p: (SyntectStyle, Style), q: Style| make_superimposed_style.ensures((p,), q) ==> q == superimposed_style_spec(p.0, p.1, true_color, null_syntect_style),
 //@rewrite <<<let make_superimposed_style = |(syntect_style, style): (SyntectStyle, Style)| {>>> => <<<let make_superimposed_style = |p: (SyntectStyle, Style)| -> (r: Style) ensures /* @C15:superimposed.style.changes.only.the.foreground.and.only.when.asked */ r == superimposed_style_spec(p.0, p.1, true_color, null_syntect_style) { let (syntect_style, style) = p;>>>
+
+
+// ---------------------------------------------------------------- explode / superimpose: the per-character lists
+/// the characters of one section, each with the section's style
+pub open spec fn styled_chars<T>(style: T, s: Seq<char>) -> Seq<(T, char)> { Seq::new(s.len(), |i: int| (style, s[i])) }
+/// the characters of a list of sections, in order, each with the style of its section
+pub open spec fn exploded_spec<T>(secs: Seq<(T, &str)>) -> Seq<(T, char)> decreases secs.len() {
+    if secs.len() == 0 { Seq::empty() } else { exploded_spec(secs.drop_last()) + styled_chars(secs.last().0, secs.last().1@) }
+}
+pub broadcast proof fn lemma_subrange_full<A>(s: Seq<A>)
+    ensures #[trigger] s.subrange(0, s.len() as int) == s,
+{ assert(s.subrange(0, s.len() as int) =~= s); }
+//@ fn src/paint.rs superimpose_style_sections::explode
+//@| ensures r@ =~= exploded_spec(style_sections@),  // @C01,C15:the.per.character.list.of.a.line.is.its.sections.spelled.out.in.order.each.character.with.the.style.of.its.section
+//@rewrite <<<for (style, s) in style_sections {>>> => <<<for (style, s) in it: style_sections {>>>
+//@rewrite <<<for c in s.chars() {>>> => <<<for c in it2: s.chars() {>>>
+//@loop 1| invariant it.seq().len() == style_sections@.len(), forall|j: int| 0 <= j < it.seq().len() ==> *(#[trigger] it.seq()[j]) == style_sections@[j],
+//@loop 1|     exploded@ =~= exploded_spec(style_sections@.subrange(0, it.index@ as int)),
+//@loop 2| invariant it2.seq() == s@, *style == style_sections@[it.index@ as int].0, *s == style_sections@[it.index@ as int].1, 0 <= it.index@ < style_sections@.len(),
+//@loop 2|     exploded@ =~= exploded_spec(style_sections@.subrange(0, it.index@ as int)) + styled_chars(*style, s@.subrange(0, it2.index@ as int)),
+//@before <<<exploded.push((*style, c));>>>| proof { assert(styled_chars(*style, s@.subrange(0, it2.index@ + 1)) =~= styled_chars(*style, s@.subrange(0, it2.index@ as int)).push((*style, c))); }
+//@after <<<exploded.push((*style, c)); }>>>| proof { let i = it.index@ as int; assert(style_sections@.subrange(0, i + 1).drop_last() =~= style_sections@.subrange(0, i)); assert(s@.subrange(0, s@.len() as int) =~= s@); }
+
+//@ fn src/paint.rs superimpose_style_sections::superimpose
+//@| requires forall|i: int| 0 <= i < style_section_pairs@.len() ==> (#[trigger] style_section_pairs@[i]).0.1 == style_section_pairs@[i].1.1,
+//@| ensures r@.len() == style_section_pairs@.len(),
+//@|     forall|i: int| 0 <= i < r@.len() ==> #[trigger] r@[i] == ((style_section_pairs@[i].0.0, style_section_pairs@[i].1.0), style_section_pairs@[i].0.1),  // @C01,C15:position.by.position.the.syntax.style.and.the.diff.style.of.the.same.character.are.paired.and.the.character.is.kept
+//@before <<<for ((syntax_style, char_1), (style, char_2)) in it: style_section_pairs {>>>| let ghost pairs = style_section_pairs@;
+//@rewrite <<<for ((syntax_style, char_1), (style, char_2)) in style_section_pairs {>>> => <<<for ((syntax_style, char_1), (style, char_2)) in it: style_section_pairs {>>>
+//@loop 1| invariant it.seq() == pairs, superimposed@.len() == it.index@,
+//@loop 1|     forall|i: int| 0 <= i < pairs.len() ==> (#[trigger] pairs[i]).0.1 == pairs[i].1.1,
+//@loop 1|     forall|i: int| 0 <= i < superimposed@.len() ==> #[trigger] superimposed@[i] == ((pairs[i].0.0, pairs[i].1.0), pairs[i].0.1),
 
 } // verus!
 fn main() {}
